@@ -16,7 +16,7 @@ package trust
 //@   ghost attempts = 0
 //@   ghost lastreturn = 0
 //@   at After: requires[wait-bound] arg0 > 0 && arg0 <= n.MaxRetryDelay
-//@   loop 0: invariant 0 < delay && (delay == 2000000000 || delay <= n.MaxRetryDelay) && successes == 0 && 0 <= now && now <= 0x4000000000000000 && deadline <= 0x4000000000000000
+//@   loop 0: invariant 0 < loopvar("time.Duration") && (loopvar("time.Duration") == 2000000000 || loopvar("time.Duration") <= n.MaxRetryDelay) && successes == 0 && 0 <= now && now <= 0x4000000000000000 && deadline <= 0x4000000000000000
 //@   ensures[first-success] err == nil ==> successes == 1 && get[0].happened && !get[1].happened && after(get[0], err == nil)
 //@ |       && header == after(get[0], header) && body == after(get[0], body)
 //@   ensures[failure] err != nil ==> successes == 0 && header == nil && body == nil
